@@ -200,12 +200,19 @@ type c19Case struct {
 	Long      bool       `json:"long_running"`
 	Ops       []c19Op    `json:"ops"`
 	Line      string     `json:"-"`
+	// remote-rejected: why the executing node turns the forwarded submission down
+	Reject   string `json:"reject_reason,omitempty"`
+	SignWork bool   `json:"signwork,omitempty"`
+	// refusal-tlsname: label of the degenerate tlsclient value and its class (used in violation keys)
+	TLSLabel string `json:"tlsclient_label,omitempty"`
+	TLSClass string `json:"tlsclient_class,omitempty"`
 
 	// observations (owned by the goroutine that runs the case; read after the barriers)
 	UnitID      string            `json:"unit_id,omitempty"`
 	RemoteID    string            `json:"remote_unit_id,omitempty"`
 	Ack         string            `json:"ack,omitempty"`
 	Started     bool              `json:"remote_started"`
+	Rejected    bool              `json:"rejected_by_remote"`
 	Scanned     int64             `json:"bytes_scanned"`
 	ParamChecks int               `json:"param_checks"`
 	OpsDone     map[string]int    `json:"ops_done,omitempty"`
@@ -240,10 +247,17 @@ func (cs *c19Case) witness() map[string]any {
 		ps = append(ps, map[string]any{"key": c19TruncVal(p.Key), "val": c19TruncVal(p.Val), "secret": p.Secret,
 			"key_class": p.KeyClass, "key_label": p.KeyLabel, "val_class": p.ValClass, "canary": p.Canary})
 	}
-	return map[string]any{"idx": cs.Idx, "kind": cs.Kind, "node": cs.Node, "worktype": cs.WorkType, "tlsclient": cs.TLS,
+	w := map[string]any{"idx": cs.Idx, "kind": cs.Kind, "node": cs.Node, "worktype": cs.WorkType, "tlsclient": cs.TLS,
 		"tlsclient_present": cs.TLSGiven, "params": ps, "escape": cs.Escape, "submit_via": cs.SubmitVia,
 		"request_line": c19TruncVal(cs.Line), "ops": cs.Ops, "unit_id": cs.UnitID, "remote_unit_id": cs.RemoteID,
 		"ack": c19TruncVal(cs.Ack), "remote_started": cs.Started, "restart_event": cs.Event}
+	if cs.Reject != "" {
+		w["reject_reason"], w["signwork"], w["rejected_by_remote"] = cs.Reject, cs.SignWork, cs.Rejected
+	}
+	if cs.TLSLabel != "" {
+		w["tlsclient_label"], w["tlsclient_class"] = cs.TLSLabel, cs.TLSClass
+	}
+	return w
 }
 
 func c19JSONString(s string, style string) string {
@@ -372,9 +386,18 @@ func c19GenOps(r *c19rng, n int, hasB bool) []c19Op {
 var c19KindPattern = []string{"remote-tls", "refusal", "remote-tls", "remote-plain", "local", "remote-tls", "refusal", "tls-unknown", "remote-tls", "local-remotetype"}
 
 func c19GenCase(seed int64, tier string, idx int, quick bool) *c19Case {
+	return c19GenCaseKind(seed, tier, idx, quick, "", 0)
+}
+
+// c19GenCaseKind generates case idx; a non-empty kind forces the kind (the extra cases of
+// c19x.go: "remote-rejected", "refusal-tlsname"), variant selects the rejection reason or
+// the degenerate tlsclient value.
+func c19GenCaseKind(seed int64, tier string, idx int, quick bool, kind string, variant int) *c19Case {
 	r := newC19rng(seed, tier, idx, 0xC19)
 	cs := &c19Case{Idx: idx, WorkType: "gen", Escape: "std", SubmitVia: "unix", OpsDone: map[string]int{}, sess: map[string]*c19Cl{}}
-	if idx < len(c19KindPattern) {
+	if kind != "" {
+		cs.Kind = kind
+	} else if idx < len(c19KindPattern) {
 		cs.Kind = c19KindPattern[idx]
 	} else {
 		switch x := r.intn(100); {
@@ -449,8 +472,27 @@ func c19GenCase(seed int64, tier string, idx int, quick bool) *c19Case {
 		cs.Node, cs.TLS, cs.TLSGiven = c19B, "nosuchprofile", true
 		nsec = 1 + r.intn(3)
 		nnon = r.intn(3)
+	case "remote-rejected":
+		// accepted by A (valid TLS client profile), turned down by B in its first answer
+		cs.Node, cs.TLS, cs.TLSGiven = c19B, c19Cli, true
+		rj := c19RejectReasons[variant%len(c19RejectReasons)]
+		cs.Reject, cs.WorkType, cs.SignWork = rj.Label, rj.WorkType, rj.SignWork
+		nsec = 1 + r.intn(3)
+		nnon = r.intn(4)
+	case "refusal-tlsname":
+		tn := c19TLSNames[variant%len(c19TLSNames)]
+		cs.TLS, cs.TLSGiven, cs.TLSLabel, cs.TLSClass = tn.Val, true, tn.Label, tn.Class
+		cs.Node = c19C
+		if r.chance(1, 4) {
+			cs.Node = c19B
+		}
+		nsec = 1 + r.intn(3)
+		nnon = r.intn(4)
 	}
 	used := map[string]bool{}
+	if cs.Reject == "params-not-allowed" {
+		used["params"] = true // added below, non-empty
+	}
 	var secretVals, plainVals []string
 	var sharedCanary string
 	for i := 0; i < nsec; i++ {
@@ -497,7 +539,7 @@ func c19GenCase(seed int64, tier string, idx int, quick bool) *c19Case {
 		for try := 0; try < 50; try++ {
 			d = c19PlainKeys[r.intn(len(c19PlainKeys))]
 			k = d.K
-			if d.Class == "params" && (cs.Kind == "refusal" || cs.Kind == "tls-unknown") {
+			if d.Class == "params" && (cs.Kind == "refusal" || cs.Kind == "tls-unknown" || cs.Kind == "refusal-tlsname" || cs.Reject == "params-not-allowed") {
 				continue
 			}
 			if used[k] {
@@ -527,6 +569,10 @@ func c19GenCase(seed int64, tier string, idx int, quick bool) *c19Case {
 		cs.Params = append(cs.Params, p)
 	}
 	_ = secretVals
+	if cs.Reject == "params-not-allowed" {
+		cs.Params = append(cs.Params, c19Param{Key: "params", KeyClass: "params", KeyLabel: "params",
+			Val: fmt.Sprintf("p%d q%d", r.intn(1000), r.intn(1000)), ValClass: "plain-words"})
+	}
 	// interleave secret and non-secret entries
 	for i := len(cs.Params) - 1; i > 0; i-- {
 		j := r.intn(i + 1)
@@ -550,6 +596,9 @@ func c19GenCase(seed int64, tier string, idx int, quick bool) *c19Case {
 	fields := []field{{`"command"`, `"work"`}, {`"subcommand"`, `"submit"`}, {`"node"`, c19JSONString(cs.Node, "std")}, {`"worktype"`, c19JSONString(cs.WorkType, "std")}}
 	if cs.TLSGiven {
 		fields = append(fields, field{`"tlsclient"`, c19JSONString(cs.TLS, "std")})
+	}
+	if cs.SignWork {
+		fields = append(fields, field{`"signwork"`, `"true"`})
 	}
 	for _, p := range cs.Params {
 		fields = append(fields, field{c19JSONString(p.Key, cs.Escape), c19JSONString(p.Val, cs.Escape)})
@@ -580,8 +629,13 @@ func c19GenCase(seed int64, tier string, idx int, quick bool) *c19Case {
 			panic(fmt.Sprintf("c19 generator: key %q does not round-trip", p.Key))
 		}
 	}
+	if cs.TLSGiven && back["tlsclient"] != cs.TLS {
+		panic("c19 generator: tlsclient does not round-trip")
+	}
 	switch cs.Kind {
-	case "refusal", "tls-unknown":
+	case "remote-rejected":
+		cs.Ops = c19GenOps(r, 6, true)
+	case "refusal", "tls-unknown", "refusal-tlsname":
 		cs.Ops = c19GenOps(r, 2, false)
 		for i := range cs.Ops {
 			cs.Ops[i].Cmd = "list"
@@ -626,5 +680,13 @@ func (cs *c19Case) tuple() string {
 	if cs.TLS != "" {
 		tls = "yes"
 	}
-	return fmt.Sprintf("%s|keys=%s|sec=%d|non=%s|tls=%s|ops=%s|ev=%s", cs.Kind, strings.Join(ls, ","), ns, nb, tls, strings.Join(ops, ","), cs.Event)
+	kind := cs.Kind
+	if cs.Reject != "" {
+		kind += "/" + cs.Reject
+	}
+	if cs.TLSLabel != "" {
+		kind += "/" + cs.TLSLabel
+		tls = "degenerate"
+	}
+	return fmt.Sprintf("%s|keys=%s|sec=%d|non=%s|tls=%s|ops=%s|ev=%s", kind, strings.Join(ls, ","), ns, nb, tls, strings.Join(ops, ","), cs.Event)
 }
